@@ -509,6 +509,16 @@ def check_case(chk, cfg, seed, stats, workdir, tag):
         else:
             rt = 0 if want_ask == "exact" else ASK_RTOL
             pairs = list(zip(a0, a1)) if isinstance(a0, list) else [(a0, a1)]
+            if cfg["kind"] == "l2d" and not isinstance(a0, list) and len(a0[0]) == len(a1[0]):
+                # Learner2D ranks triangles by losses that carry ~1e-8 of solver noise (iterative gradient
+                # estimate): on symmetric data two triangles tie and the copy may serve them in the other
+                # order.  A position counts as equal if the points agree or the promised improvements tie.
+                a1 = (list(a1[0]), list(a1[1]))
+                for i in range(len(a0[0])):
+                    if not _pt_eq(a0[0][i], a1[0][i], 0) and _numeric(a0[1][i]) and close_val(a0[1][i], a1[1][i], 1e-6):
+                        a1[0][i] = a0[0][i]
+                        stats["l2d_ties_accepted"] = stats.get("l2d_ties_accepted", 0) + 1
+                pairs = [(a0, a1)]
             ok = all((x is None) == (y is None) and (x is None or (
                 points_equal(list(x[0]), list(y[0]), rt) and
                 # "suggestions" are the points; the promised improvements are only sanity-checked, and not at all
